@@ -55,6 +55,13 @@ FIRST_CONTACT_R4 = {
 }
 
 
+FIRST_CONTACT_R7C = {
+    "C01-r7C": "C08 (wrong reason; now undecided)", "C02-r7C": "C02 (wrong reason; now undecided)", "C03-r7C": "none (undecided)", "C04-r7C": "C04 C05 C16", "C05-r7C": "C04 C05 C16",
+    "C06-r7C": "C03 C06 C08 (C08 for a wrong reason; now C03 C06)", "C07-r7C": "C06 C07 (C06 for a wrong reason; now C07)", "C08-r7C": "C03 C08", "C09-r7C": "C08 only - C09 was silent (cache served through get())",
+    "C10-r7C": "none (undecided)", "C11-r7C": "none (undecided)", "C12-r7C": "none (undecided)", "C13-r7C": "none (undecided)", "C14-r7C": "C13 C14 (both for wrong reasons; now C14 for the slip)",
+    "C15-r7C": "C01 (wrong reason; now undecided)", "C16-r7C": "none (undecided)", "C17-r7C": "C07 C17 (C07 for a wrong reason; now C17)", "C18-r7C": "C18", "C19-r7C": "C19",
+    "C20-r7C": "C08 C20 (both for wrong reasons; now C20.4 for the slip)",
+}
 FIRST_CONTACT_R6C = {
     "C01-r6C": "C01", "C02-r6C": "C02 C03 C06 (all three for a wrong reason; now undecided)", "C03-r6C": "none (undecided)", "C04-r6C": "C04 C05 C16", "C05-r6C": "none (undecided)",
     "C06-r6C": "C06", "C07-r6C": "C06 C07 (wrong reason; now undecided)", "C08-r6C": "C06 only - C08 was silent (generators did not carry iteration order)", "C09-r6C": "C09",
@@ -89,7 +96,7 @@ def table_r3(root, tag="-r3"):
             first += 1
         extra = " %s |" % (" ".join(fc) or "-") if fc is not None else ""
         rows.append("| %s | %s | %d | %s |%s %s |" % (d, m["property"], len(m.get("clean_for", [])), " ".join(und) or "-", extra, (m.get("what") or "").replace("|", "/")[:110]))
-    if tag in ("-r5", "-r6"):
+    if tag in ("-r5", "-r6", "-r7"):
         print("| refactoring | written for | checks silent and decided | checks answering undecided | false alarms at first contact | what it is |")
         print("|---|---|---|---|---|---|")
     else:
@@ -97,7 +104,7 @@ def table_r3(root, tag="-r3"):
         print("|---|---|---|---|---|")
     print("\n".join(rows))
     print()
-    if tag in ("-r5", "-r6"):
+    if tag in ("-r5", "-r6", "-r7"):
         print("%d of these refactorings were reported as a violation by at least one check when first run; each report was a false alarm and was removed by generalising the rule." % first)
         print()
     print("%d refactorings: %d decided clean by all 20 checks, %d with at least one undecided answer (the target property's own check undecided for %d); none is reported as a violation." % (full + part, full, part, tgt_und))
@@ -106,9 +113,9 @@ def table_r3(root, tag="-r3"):
 def main():
     rnd = sys.argv[1] if len(sys.argv) > 1 else "r2"
     root = os.path.join(HERE, "seeded")
-    if rnd in ("r3", "r5", "r6"):
+    if rnd in ("r3", "r5", "r6", "r7"):
         return table_r3(root, "-" + rnd)
-    first = FIRST_CONTACT_R4 if rnd == "r4" else (FIRST_CONTACT_R6C if rnd == "r6C" else FIRST_CONTACT_R2)
+    first = FIRST_CONTACT_R4 if rnd == "r4" else (FIRST_CONTACT_R6C if rnd == "r6C" else (FIRST_CONTACT_R7C if rnd == "r7C" else FIRST_CONTACT_R2))
     rows = []
     for d in sorted(os.listdir(root)):
         if ("-" + rnd) not in d:
